@@ -128,6 +128,11 @@ def decode(m, v, model, depth=0):
         return v
     if isinstance(v, Fraction):
         return {"__real__": str(v), "approx": float(v)}
+    if isinstance(v, NanReal):
+        isn = v.isnan if isinstance(v.isnan, bool) else z3.is_true(model.eval(v.isnan, model_completion=True))
+        if isn:
+            return {"__nan__": True}
+        return decode(m, v.val, model, depth + 1)
     if isinstance(v, SOpt):
         if z3.is_true(model.eval(v.isnone, model_completion=True)):
             return None
@@ -321,6 +326,7 @@ class Verifier:
         label = (prop + "/" if prop else "") + ccls.target.split(":")[1]
         if getattr(ccls, "label", None):
             label = (prop + "/" if prop else "") + ccls.label
+        m.check_prefix = label
         try:
             f = self.target_func(m, ccls.target)
         except Exception as e:
@@ -360,7 +366,10 @@ class Verifier:
                 # 1. inputs
                 ns = {}
                 for pname, pt in params.items():
-                    ns[pname] = m.fresh(pt, pname, shape)
+                    if shape and pname in shape and isinstance(pt, S._Scalar):
+                        ns[pname] = shape[pname]  # scalar fixed by the shape of this unit
+                    else:
+                        ns[pname] = m.fresh(pt, pname, shape)
                 s = Namespace(ns)
                 if getattr(ccls, "ghost", None):
                     m.ghost_state = {g: m.fresh(gt, "ghost." + g, shape) for g, gt in ccls.ghost.items()}
